@@ -601,6 +601,20 @@ def cut_registry(rng, universe, std_names):
     return spec, mode
 
 
+def near_miss(rng, name):
+    """a name that differs from a defined one by case, a trailing character, a missing character or a prefix"""
+    r = rng.random()
+    if r < 0.35:
+        return name.swapcase() if name.swapcase() != name else name + "_"
+    if r < 0.55:
+        return name.lower() if name.lower() != name else name.upper()
+    if r < 0.7:
+        return name + rng.choice(["2", " ", "_", "."])
+    if r < 0.85 and len(name) > 1:
+        return name[:-1]
+    return rng.choice(["x.", "_"]) + name
+
+
 class Gen:
     def __init__(self, rng, universe, std_names, consistent=True):
         self.rng, self.consistent = rng, consistent
@@ -661,6 +675,11 @@ class Gen:
                 b = rng.choice("CA")
             if rng.random() < 0.12:     # same id, unknown or other extension
                 e = rng.choice(GEN_EXTS + ["nowhere"])
+            elif rng.random() < 0.12:   # near-miss of a defined name: must stay opaque
+                if rng.random() < 0.5:
+                    i = near_miss(rng, i)
+                else:
+                    e = near_miss(rng, e)
             return ["opaque", e, i, args, b]
         e = rng.choice(GEN_EXTS + ["nowhere", "collections.list"])
         i = rng.choice(TYPE_IDS + ["Unknown"])
@@ -669,7 +688,7 @@ class Gen:
     def ty(self, depth):
         rng = self.rng
         if depth <= 0:
-            return self.leaf() if rng.random() < 0.5 else self.opaque(0)
+            return self.leaf() if depth < 0 or rng.random() < 0.5 else self.opaque(0)
         r = rng.random()
         if r < 0.45:
             return self.opaque(depth)
@@ -693,6 +712,11 @@ class Gen:
             e, n = rng.choice(self.ops)
             if rng.random() < 0.1:
                 e = rng.choice(GEN_EXTS + ["nowhere"])
+            elif rng.random() < 0.12:
+                if rng.random() < 0.5:
+                    n = near_miss(rng, n)
+                else:
+                    e = near_miss(rng, e)
         else:
             e, n = rng.choice(GEN_EXTS + ["nowhere", "logic"]), rng.choice(OP_IDS + ["Unknown"])
         return {"op": "custom", "ext": e, "name": n, "descr": rng.choice(["", "", "orig", "rotate"]), "sig": self.ft(depth),
@@ -861,7 +885,7 @@ class C11(fw.Prop):
         ]
 
     def generate(self, rng, tier, ctx):
-        k = 1 if tier == "quick" else 8
+        k = 1 if tier == "quick" else 24
         cases = list(self.std_sweep())
         allstd = sorted(std_exts())
         for n in range(330 * k):
@@ -958,13 +982,22 @@ class C11(fw.Prop):
             out["mod0"] = guard(lambda: term_tree(t.to_model(), pairs))
             if k == "ty":
                 out["b0"] = guard(lambda: bname(t.type_bound()))
-            r = t.resolve(reg)
+            # resolution never raises by its contract; if it does, the case carries a sentinel result that no
+            # input is related to, so that the monitor reports the case itself
+            sentinel = ["rowvar", 4999, "A"] if k == "ty" else ["var", 4999, ["exts"]]
+            r = guard(lambda: t.resolve(reg))
+            if raised(r):
+                out.update({"res": sentinel, "res2": sentinel, "ser1": r, "mod1": r, "resolve_raised": r["raised"]})
+                if k == "ty":
+                    out["b1"] = r
+                return out
             out["res"] = pr(r)
             out["ser1"] = guard(lambda: ser(r._to_serial().model_dump(mode="json")))
             out["mod1"] = guard(lambda: term_tree(r.to_model(), pairs))
             if k == "ty":
                 out["b1"] = guard(lambda: bname(r.type_bound()))
-            out["res2"] = pr(r.resolve(reg))
+            r2 = guard(lambda: r.resolve(reg))
+            out["res2"] = sentinel if raised(r2) else pr(r2)
             return out
         return self.observe_hugr(case, reg, out)
 
@@ -1057,7 +1090,13 @@ class C11(fw.Prop):
             o["pt0"], o["pb0"] = ports(h, n)
             obs.append(o)
         rest0 = guard(lambda: rest(h))
-        ret = h.resolve_extensions(reg)
+        ret = guard(lambda: h.resolve_extensions(reg))
+        if raised(ret):                  # never expected: every node reports a sentinel operation
+            for o in obs:
+                o.update({"res": ["other", "resolve raised " + ret["raised"]], "res2": ["other", "resolve raised"],
+                          "ser1": ret, "exp1": ret, "pt1": [], "pb1": []})
+            out["nodes"], out["rest_same"], out["resolve_raised"] = obs, False, ret["raised"]
+            return out
         for n, o, pairs in zip(nodes, obs, pairs_l):
             o["res"] = print_op(h[n].op)
             o["ser1"] = guard(lambda: ser_op(h[n].op))
@@ -1118,7 +1157,10 @@ class C11(fw.Prop):
                     a, b = o["ser0"], o["ser1"]
                     if (not raised(a) and not raised(b) and a[0] == b[0] == "custom"
                             and {**a[1], "descr": ""} == {**b[1], "descr": ""}):
-                        parts.append("description")
+                        # only the description differs: allowed iff it became the definition's
+                        defs = [d["descr"] for k, x in obs["reg"] if k == a[1]["ext"] for n, d in x["ops"] if n == a[1]["name"]]
+                        if b[1]["descr"] not in defs:
+                            parts.append("description")
                     else:
                         parts.append("serial")
                 if o["pb0"] != o["pb1"]:
